@@ -64,6 +64,10 @@ def call(eng, node, st):
             return cb
     if name in ("all", "any") and len(node.args) == 1 and isinstance(node.args[0], (ast.GeneratorExp, ast.ListComp)):
         return quant_genexp(eng, node.args[0], st, name == "all")
+    if name == "max" and len(node.args) == 1:
+        am = _argmax_enumerate_shape(eng, node, st)
+        if am is not None:
+            return am
     if name in SIMPLE:
         args = [eng.ev(a, st) for a in node.args]
         for kw in node.keywords:
@@ -85,6 +89,43 @@ def call(eng, node, st):
             args = [eng.ev(a, st) for a in node.args]
             return eng.call_by_contract(q, args, st=st)
     raise Unsupported(f"call of {ast.dump(node.func)[:80]}")
+
+
+def _argmax_enumerate_shape(eng, node, st):
+    """max(enumerate(S), key=lambda pe: pe[1])  =  (i, S[i]) with i the FIRST position of a maximal entry of S
+    (CPython's max keeps the first of equal keys); ValueError on an empty S is an obligation."""
+    a0 = node.args[0]
+    if not (isinstance(a0, ast.Call) and _fname(a0) == "enumerate" and len(a0.args) == 1 and not a0.keywords):
+        return None
+    if len(node.keywords) != 1 or node.keywords[0].arg != "key":
+        return None
+    lam = node.keywords[0].value
+    if not (isinstance(lam, ast.Lambda) and len(lam.args.args) == 1 and isinstance(lam.body, ast.Subscript)
+            and isinstance(lam.body.value, ast.Name) and lam.body.value.id == lam.args.args[0].arg
+            and isinstance(lam.body.slice, ast.Constant) and lam.body.slice.value == 1):
+        return None
+    seq = eng.as_seq(eng.ev(a0.args[0], st), st)
+    eng.rules_used.add("argmax-enumerate (max(enumerate(S), key=second) = first position of a maximal entry, with the entry)")
+    if eng.concrete:
+        n_c = z3.simplify(seq.n)
+        if not z3.is_int_value(n_c):
+            raise Unsupported("concrete mode: max over a symbolic range")
+        if n_c.as_long() == 0:
+            from .engine import _PyRaise
+            raise _PyRaise("ValueError")
+        bi, bv = z3.IntVal(0), Z(seq.at(z3.IntVal(0)))
+        for ii in range(1, n_c.as_long()):
+            t = Z(seq.at(z3.IntVal(ii)))
+            bi, bv = z3.If(t > bv, z3.IntVal(ii), bi), z3.If(t > bv, t, bv)
+        return TupV([IntV(z3.simplify(bi)), IntV(z3.simplify(bv))])
+    eng.emit("minmax-nonempty", st, seq.n > 0)
+    i, k = fresh("amx"), fresh("xk")
+    st.assume(z3.And(i >= 0, i < seq.n))
+    v = Z(seq.at(i))
+    sk = Z(seq.at(k))
+    pats = [sk] if dsl._pat_ok(sk) else None
+    st.assume(z3.ForAll([k], z3.Implies(z3.And(k >= 0, k < seq.n), z3.And(sk <= v, z3.Implies(k < i, sk < v))), **({"patterns": pats} if pats else {})))
+    return TupV([IntV(i), IntV(v)])
 
 
 def _count_below_shape(eng, g, st):
